@@ -854,3 +854,66 @@ def _direntry_file_name(E, ci, d):
 @model('DirEntry::metadata', 'DirEntry::file_type')
 def _direntry_metadata(E, ci, d):
     return ok(Obj('Metadata', node=deref(d).node))
+
+
+@model('BufRead::read_until')
+def _bufread_read_until(E, ci, r, delim, v):
+    st, e, out = read_until(E, r, delim)
+    deref(v).buf.extend(out)
+    if st == 'err':
+        return err(e)
+    return ok(USZ(len(out)))
+
+
+@model('BufRead::read_line')
+def _bufread_read_line(E, ci, r, v):
+    from .models import utf8_valid_prefix
+    from .models_io import io_error
+    st, e, out = read_until(E, r, U8(10))
+    if st == 'err':
+        return err(e)
+    good, _ = utf8_valid_prefix(E, out)
+    if not good:
+        return err(io_error(E, 'InvalidData', Slice(lit('stream did not contain valid UTF-8'), 0, 34, 'str')))
+    deref(v).buf.extend(out)
+    return ok(USZ(len(out)))
+
+
+@model('Read::read_exact')
+def _read_exact(E, ci, r, buf):
+    from .models_io import io_error
+    b = as_slice(buf)
+    pos = 0
+    while pos < len(b):
+        rr = reader_read(E, r, b.sub(pos, len(b)))
+        if rr.variant == 1:
+            if is_interrupted(E, rr.fields[0]):
+                continue
+            return rr
+        n = E.concretize(rr.fields[0])
+        if n == 0:
+            return err(io_error(E, 'UnexpectedEof', Slice(lit('failed to fill whole buffer'), 0, 27, 'str')))
+        pos += n
+    return ok(UNIT)
+
+
+@model('Read::bytes')
+def _read_bytes(E, ci, r):
+    if isinstance(deref(r), Slice):
+        r = Ref([SliceReader(deref(r))], 0)
+    elif not isinstance(r, Ref):
+        r = Ref([r], 0)
+
+    class BytesIter(Iter):
+        def next(self_, E_):
+            while True:
+                scratch = [U8(0)]
+                rr = reader_read(E_, r, Slice(scratch, 0, 1, 'slice'))
+                if rr.variant == 1:
+                    if is_interrupted(E_, rr.fields[0]):
+                        continue
+                    return some(rr)
+                if E_.concretize(rr.fields[0]) == 0:
+                    return none()
+                return some(ok(scratch[0]))
+    return BytesIter()
